@@ -14,6 +14,13 @@
 //!    whose name looks like a memory / call operation but is not known is an
 //!    extraction failure. `#[cfg(feature = "verif-hooks")]` items are skipped.
 //!
+//!  * `lir::eval::eval` of `src/lir/eval.rs` (the reference interpreter that
+//!    property C20 compares compiled code with): for every variant, the
+//!    operations of its arm on the interpreter's memory (`mem.write`, `mem.copy`,
+//!    `mem.read_slice`, `mem.allocate`, frames, raw pointers handed to Rust
+//!    functions, calls through function pointers of the instruction,
+//!    `call_runtime_function`, `ptr::write`).
+//!
 //! The Lean side (`Props/C12.lean`) classifies every generated kind by an
 //! exhaustive `match`, so a NEW instruction kind breaks the build of the
 //! theorem module until it is classified.
@@ -125,6 +132,70 @@ impl<'ast> Visit<'ast> for Ops<'_> {
     }
 }
 
+/// memory operations of the reference LIR interpreter (`lir/eval.rs`)
+const EVAL_MEM: &[(&str, &str)] = &[
+    ("write", ".write"),
+    ("copy", ".copy"),
+    ("read_slice", ".read"),
+    ("read_array", ".read"),
+    ("allocate", ".alloc"),
+    ("push_frame", ".pushFrame"),
+    ("pop_frame", ".popFrame"),
+    ("get", ".rawPtr"),
+    ("offset_by", ".offsetBy"),
+];
+
+struct EvalOps {
+    out: Vec<&'static str>,
+    err: Option<String>,
+}
+
+impl<'ast> Visit<'ast> for EvalOps {
+    fn visit_expr_method_call(&mut self, m: &'ast syn::ExprMethodCall) {
+        syn::visit::visit_expr_method_call(self, m);
+        let recv = m.receiver.to_token_stream().to_string().replace(' ', "");
+        let name = m.method.to_string();
+        if recv == "mem" {
+            match EVAL_MEM.iter().find(|(n, _)| *n == name) {
+                Some((_, l)) => self.out.push(l),
+                None => self.err = Some(format!("unknown memory operation mem.{name}")),
+            }
+        } else if recv == "mem.pointers" && name == "push" {
+            self.out.push(".newPointer");
+        } else if recv.starts_with("mem.") && name != "len" {
+            self.err = Some(format!("unknown operation on {recv}: {name}"));
+        }
+    }
+    fn visit_expr_call(&mut self, c: &'ast syn::ExprCall) {
+        syn::visit::visit_expr_call(self, c);
+        let f = c.func.to_token_stream().to_string().replace(' ', "");
+        if matches!(&*c.func, syn::Expr::Paren(_)) {
+            // `(clone_fn)(to, from)`: a call through a function pointer of the instruction
+            self.out.push(".callFnPtr");
+        } else if f == "call_runtime_function" {
+            self.out.push(".callRt");
+        } else if f == "std::ptr::write" || f == "ptr::write" {
+            self.out.push(".ptrWrite");
+        } else if f.contains("ptr::") || f.contains("mem::") || f.contains("transmute") {
+            self.err = Some(format!("unclassified raw-memory function `{f}` in an evaluator arm"));
+        }
+    }
+    fn visit_stmt(&mut self, s: &'ast syn::Stmt) {
+        if let syn::Stmt::Local(l) = s {
+            if l.attrs.iter().any(|a| a.to_token_stream().to_string().contains("verif-hooks")) {
+                return;
+            }
+        }
+        syn::visit::visit_stmt(self, s);
+    }
+    fn visit_expr_block(&mut self, b: &'ast syn::ExprBlock) {
+        if b.attrs.iter().any(|a| a.to_token_stream().to_string().contains("verif-hooks")) {
+            return;
+        }
+        syn::visit::visit_expr_block(self, b);
+    }
+}
+
 fn pat_variants(p: &syn::Pat, out: &mut Vec<String>) -> Result<(), String> {
     match p {
         syn::Pat::Struct(s) => out.push(s.path.segments.last().unwrap().ident.to_string()),
@@ -230,6 +301,35 @@ pub fn c12instr(repo: &Path) -> Result<String, String> {
         }
     }
 
+    // 2b. the reference interpreter's arms
+    let evalf = find::parse(repo, "src/lir/eval.rs")?;
+    let eval_body = find::func(&evalf, "eval", None)?.block;
+    let ems = find::matches_on(&eval_body, "instruction");
+    if ems.len() != 1 {
+        return Err(format!("lir::eval::eval: {} `match instruction` found", ems.len()));
+    }
+    let mut eops: BTreeMap<String, Vec<&'static str>> = BTreeMap::new();
+    for arm in &ems[0].arms {
+        let mut vs = vec![];
+        pat_variants(&arm.pat, &mut vs)?;
+        if arm.guard.is_some() {
+            return Err("guarded arm in lir::eval::eval".into());
+        }
+        let mut o = EvalOps { out: vec![], err: None };
+        o.visit_expr(&arm.body);
+        if let Some(e) = o.err {
+            return Err(format!("evaluator arm {}: {e}", vs.join("|")));
+        }
+        for v in vs {
+            eops.entry(v).or_default().extend(o.out.iter().copied());
+        }
+    }
+    for (v, _) in &variants {
+        if !eops.contains_key(v) {
+            return Err(format!("no evaluator arm for Instruction::{v}"));
+        }
+    }
+
     // 3. emit
     let mut field_names: Vec<String> = vec![];
     for (_, fs) in &variants {
@@ -279,6 +379,11 @@ pub fn c12instr(repo: &Path) -> Result<String, String> {
     s.push_str("/-- operations the machine-code generator emits for each kind (source order) -/\ndef codegenOps : Kind → List CgOp\n");
     for (v, _) in &variants {
         s.push_str(&format!("  | .k{v} => [{}]\n", ops[v].join(", ")));
+    }
+    s.push_str("\ninductive EvOp\n  | write | copy | read | alloc | pushFrame | popFrame | rawPtr | offsetBy | newPointer | callFnPtr | callRt | ptrWrite\n  deriving DecidableEq, Repr\n\n");
+    s.push_str("/-- memory operations of the reference interpreter `lir::eval::eval` for each kind (source order) -/\ndef evalOps : Kind → List EvOp\n");
+    for (v, _) in &variants {
+        s.push_str(&format!("  | .k{v} => [{}]\n", eops[v].join(", ")));
     }
     s.push_str("\nend RotoV.Gen.C12Instr\n");
     Ok(s)
